@@ -162,11 +162,11 @@ class HeapMaintenance(Harness):
                               f"order {o['id']} filled while higher-priority order {a['id']} keeps volume")
         for r in recs:
             r["filled"] = r["filled"] + got[r["id"]]
-        # the counter order may rest afterwards; take it out again so that the next round starts clean
-        m._cancel_order(Cancel(order=co))
         if "C03" in self.props:
             from .matching import _Monitors
             _Monitors(g, ("C03",)).check_uncrossed(m)
+        # the counter order may rest afterwards; take it out again so that the next round starts clean
+        m._cancel_order(Cancel(order=co))
 
     def run(self, g, case):
         lg = RecLogger()
